@@ -77,9 +77,10 @@ def classify1(src, venom, level, limit, phase="bytecode", files=None):
                 compile_code(src, output_formats=fmts, settings=st)
             else:
                 from vyper.cli.vyper_compile import compile_files
-                root, target, paths = files
+                root, target, paths, layout = files
                 compile_files([os.path.join(root, target)], fmts, paths=[os.path.join(root, p) for p in paths],
-                              include_sys_path=False, settings=st)
+                              include_sys_path=False, settings=st,
+                              storage_layout_paths=[os.path.join(root, layout)] if layout else None)
         return {"outcome": "output"}
     except Timeout:
         return {"outcome": "INTERNAL", "exc": "Timeout", "frame": "?", "msg": f"no result within {limit}s"}
@@ -111,7 +112,7 @@ def main():
                 os.makedirs(os.path.dirname(fp), exist_ok=True)
                 with open(fp, "w") as fh:
                     fh.write(txt)
-            files = (root, it["target"], it.get("paths", ["."]))
+            files = (root, it["target"], it.get("paths", ["."]), it.get("layout"))
         front = classify(it.get("src"), False, "gas", limit, phase="front", files=files)
         res["front"] = front
         for venom, level in job["configs"]:
